@@ -100,7 +100,8 @@ def build(case):
     with warnings.catch_warnings(record=True) as w:
         warnings.simplefilter("always")
         try:
-            cls = types.new_class(f"Def{_ctr[0]}", (StateMachine,), kwds, lambda d: d.update(ns))
+            # one class name for all: the library keeps every class it ever saw in a process-global registry keyed by name
+            cls = types.new_class("Def", (StateMachine,), kwds, lambda d: d.update(ns))
             res = ("ok", cls)
         except InvalidDefinition as e:
             res = ("invalid", str(e))
@@ -202,7 +203,9 @@ def nth(n, idx, one_initial=False, internal=False):
 def extra(tier, seed, shard, nshards):
     plan = [(1, False, False), (2, False, False), (3, False, False), (1, False, True), (2, False, True)]
     plan += [(3, False, True), (4, True, False)] if tier == "thorough" else []
-    total = 0
+    total = nt = 0
+    labels = {}
+    sample = None
     for n, one, internal in plan:
         sp = space(n, one, internal)
         for idx in range(shard, sp, nshards):
@@ -211,10 +214,19 @@ def extra(tier, seed, shard, nshards):
                 continue
             out = run_case(case)
             total += 1
-            yield case, out
             if not out["ok"]:
+                yield case, out
                 return
-    yield None, {"exhaustive_definitions": total, "exhaustive": True}
+            # (enumerated definitions are pairwise distinct by construction: they are counted, not hashed one by one)
+            if out["nontrivial"]:
+                nt += 1
+                if sample is None or (nt % 9973 == 0):
+                    sample = case
+            for lab in out["labels"]:
+                labels[lab] = labels.get(lab, 0) + 1
+    if sample is not None:
+        yield sample, outcome(True, nontrivial=False, labels=["sample-of-the-enumeration"])
+    yield None, dict({"exhaustive_definitions": total, "exhaustive_nontrivial": nt, "exhaustive": True}, **{"enum:" + k: v for k, v in labels.items()})
 
 
 # ---------------------------------------------------------------- generated family
@@ -255,3 +267,9 @@ def strategy(tier):
 
 def budget(tier):
     return 16 * 300 if tier == "quick" else 16 * 6000
+
+
+def evidence_hook(cov):
+    cov["evaluations"] += cov.get("exhaustive_definitions", 0)
+    cov["distinct_nontrivial"] += cov.get("exhaustive_nontrivial", 0)
+    return cov
